@@ -33,7 +33,7 @@ m = {
     "setup_cmd": "./check --setup",
     "hooks": {
         "guard": "gmsol_verif",
-        "enable": "RUSTFLAGS=\"--cfg gmsol_verif\" (passed by ./check to cargo kani and to the nightly MIR dump)",
+        "enable": "RUSTFLAGS=\"--cfg gmsol_verif\" (passed by ./check to every cargo kani invocation)",
         "baseline_off_cmd": baseline,
         "source_commits": hooks_commits,
         "add_only": True,
@@ -41,8 +41,6 @@ m = {
     "engines": [
         {"name": "kani", "path": "/verif/harness", "serves_properties": [p for p in props if p in md.CLAIMED and md.CLAIMED[p].get("engine", "kani") in ("kani", "kani+mir2smt")],
          "kind_free_text": "Kani 0.68 / CBMC 6.11 bounded model checking of the real crates through out-of-tree harness crates with path dependencies on /repo"},
-        {"name": "mir2smt", "path": "/verif/mir2smt", "serves_properties": [p for p in props if p in md.CLAIMED and "mir2smt" in md.CLAIMED[p].get("engine", "kani")],
-         "kind_free_text": "nightly rustc MIR dump of the real crate translated to SMT-LIB2 (integers with explicit range side conditions), decided by z3 and cross-checked by cvc5"},
     ],
     "checks": checks,
     "not_applicable": na,
